@@ -100,6 +100,7 @@ func c11Pipeline(name string, k int, variant int) string {
       policy: roundRobin
     retryPolicy: retry3
     circuitBreakerPolicy: cb
+    failureCodes: [503]
 - name: ra
   kind: ResponseAdaptor
   header:
@@ -127,29 +128,87 @@ func c11Pipeline(name string, k int, variant int) string {
 var (
 	c11BackendOnce sync.Once
 	c11BackendSrv  *httptest.Server
+	c11CanarySrv   *httptest.Server
+
+	c11AttemptsMu sync.Mutex
+	c11Attempts   = map[string]int{} // X-Req-Id -> attempts the backends have seen so far
+	c11ReqSeq     int64
 )
 
-// c11Backend is a loopback backend that echoes the generation stamped on the request.
-func c11Backend() *httptest.Server {
-	c11BackendOnce.Do(func() {
-		c11BackendSrv = httptest.NewServer(http.HandlerFunc(func(w http.ResponseWriter, r *http.Request) {
-			w.Header().Set("Content-Type", "text/plain")
-			fmt.Fprintf(w, "gen-%s", r.Header.Get("X-Gen-Req"))
-		}))
+// c11BackendHandler is a scripted loopback backend: it echoes the generation stamped on the
+// request (and the pool it belongs to); a request that carries X-Req-Id is counted per id, and
+// its first X-Fail-First attempts are answered with X-Fail-Code (default 503) instead: the
+// transient backend failure a Retry policy of the pipeline exists to mask.
+func c11BackendHandler(pool string) http.Handler {
+	return http.HandlerFunc(func(w http.ResponseWriter, r *http.Request) {
+		w.Header().Set("Content-Type", "text/plain")
+		if id := r.Header.Get("X-Req-Id"); id != "" {
+			c11AttemptsMu.Lock()
+			c11Attempts[id]++
+			n := c11Attempts[id]
+			c11AttemptsMu.Unlock()
+			if ff, _ := strconv.Atoi(r.Header.Get("X-Fail-First")); n <= ff {
+				code, _ := strconv.Atoi(r.Header.Get("X-Fail-Code"))
+				if code == 0 {
+					code = http.StatusServiceUnavailable
+				}
+				w.WriteHeader(code)
+				fmt.Fprintf(w, "fail-%s", pool)
+				return
+			}
+		}
+		if pool != "main" {
+			w.Header().Set("X-Pool", pool)
+		}
+		fmt.Fprintf(w, "gen-%s", r.Header.Get("X-Gen-Req"))
 	})
-	return c11BackendSrv
+}
+
+func c11StartBackends() {
+	c11BackendOnce.Do(func() {
+		c11BackendSrv = httptest.NewServer(c11BackendHandler("main"))
+		c11CanarySrv = httptest.NewServer(c11BackendHandler("canary"))
+	})
+}
+
+// c11Backend is the loopback backend of the main pool, c11Canary the one of the candidate pool.
+func c11Backend() *httptest.Server { c11StartBackends(); return c11BackendSrv }
+func c11Canary() *httptest.Server  { c11StartBackends(); return c11CanarySrv }
+
+// c11TakeAttempts returns (and forgets) the number of attempts the backends saw for id.
+func c11TakeAttempts(id string) int {
+	c11AttemptsMu.Lock()
+	n := c11Attempts[id]
+	delete(c11Attempts, id)
+	c11AttemptsMu.Unlock()
+	return n
 }
 
 type c11Obs struct {
-	Status int    `json:"status"`
-	Body   string `json:"body"`
-	Hdr    string `json:"x_gen"`
-	Result string `json:"result"`
+	Status   int    `json:"status"`
+	Body     string `json:"body"`
+	Hdr      string `json:"x_gen"`
+	Result   string `json:"result"`
+	Pool     string `json:"pool,omitempty"`
+	Attempts int    `json:"backend_attempts,omitempty"` // only for requests that carry X-Req-Id
 }
 
+// c11Call sends one request; every fourth one asks the (Proxy variants') backend to fail its
+// first attempt, which the pipeline's Retry policy has to mask in whatever generation serves it.
 func c11Call(h context.Handler) c11Obs {
+	n := atomic.AddInt64(&c11ReqSeq, 1)
+	if n%4 != 0 {
+		return c11Do(h, nil)
+	}
+	return c11Do(h, map[string]string{"X-Req-Id": fmt.Sprintf("conc-%d", n), "X-Fail-First": "1"})
+}
+
+func c11Do(h context.Handler, hdr map[string]string) c11Obs {
 	std := httptest.NewRequest("GET", "http://h.test/x", nil)
 	std.Header.Set("X-Client", "verif")
+	for k, v := range hdr {
+		std.Header.Set(k, v)
+	}
 	req, _ := httpprot.NewRequest(std)
 	req.FetchPayload(0)
 	ctx := context.New(tracing.NoopSpan)
@@ -161,9 +220,13 @@ func c11Call(h context.Handler) c11Obs {
 			o.Status = resp.StatusCode()
 			o.Body = string(resp.RawPayload())
 			o.Hdr = resp.HTTPHeader().Get("X-Gen")
+			o.Pool = resp.HTTPHeader().Get("X-Pool")
 		}
 	}
 	ctx.Finish()
+	if id := hdr["X-Req-Id"]; id != "" {
+		o.Attempts = c11TakeAttempts(id)
+	}
 	return o
 }
 
@@ -193,7 +256,7 @@ func c11GenOf(o c11Obs) (int, int, bool) {
 func TestVerif_C11_Pipelines(t *testing.T) {
 	r := kit.Start(t, "C11")
 	defer r.Finish()
-	r.Rule("rig 2/3: real TrafficController + real Pipelines (RateLimiter whose state is inherited, Mock, ResponseAdaptor, optionally CORSAdaptor/Validator/RequestAdaptor, and in half of the cases a real Proxy with Retry and CircuitBreaker policies to a loopback backend in place of the Mock); 8 client goroutines call GetHandler(hot).Handle while one goroutine applies generations g0..gN of 'hot' (body and header both carry the generation) and another creates/updates/deletes three other pipelines; oracle: no panic, status 200, body generation == header generation, applied-before-start <= generation <= started-before-end, the untouched pipeline 'stable' always available with its own marker; sequential: handler obtained before an update is used after it (and after the old generation was closed), re-applying an identical spec returns the same entity and instance; distinct = (phase, variant, generation lag, overlap)")
+	r.Rule("rig 2/3: real TrafficController + real Pipelines (RateLimiter whose state is inherited, Mock, ResponseAdaptor, optionally CORSAdaptor/Validator/RequestAdaptor, and in half of the cases a real Proxy with Retry and CircuitBreaker policies and failureCodes [503] to a scripted loopback backend in place of the Mock; every fourth request asks that backend to fail its first attempt with 503, which the Retry policy of whichever generation serves the request must mask); 8 client goroutines call GetHandler(hot).Handle while one goroutine applies generations g0..gN of 'hot' (body and header both carry the generation) and another creates/updates/deletes three other pipelines; oracle: no panic, status 200 (a request whose failed first attempt was not retried gets its own signature), body generation == header generation, applied-before-start <= generation <= started-before-end, the untouched pipeline 'stable' always available with its own marker; sequential: handler obtained before an update is used after it (and after the old generation was closed), re-applying an identical spec returns the same entity and instance; distinct = (phase, variant, generation lag, overlap)")
 	r.Assume("an update has 'been applied' when ApplyPipelineForSpec/UpdatePipelineForSpec returned")
 	super := supervisor.NewDefaultMock()
 	rounds := r.N(10, 300)
@@ -203,6 +266,9 @@ func TestVerif_C11_Pipelines(t *testing.T) {
 		}
 		rng := r.CaseRand(i)
 		variant := rng.Intn(8)
+		if i%5 == 2 {
+			variant |= 4 // the Proxy + resilience variant is exercised in every shard
+		}
 		gens := 30 + rng.Intn(40)
 		useUpdate := rng.Intn(2) == 0
 		r.Case(i, map[string]interface{}{"variant": variant, "generations": gens, "useUpdate": useUpdate})
@@ -238,7 +304,9 @@ func TestVerif_C11_Pipelines(t *testing.T) {
 			in := map[string]interface{}{"variant": variant, "step": "old generation handles a request after new.Inherit(old)+old.Close()", "k": k}
 			if !r.Guard("C11:old-generation-after-update", in, func() { o = c11Call(old) }) {
 				r.Count("old_generation_requests", 1)
-				if o.Status != 200 {
+				if o.Status != 200 && o.Attempts == 1 {
+					r.Violation(fmt.Sprintf("pipeline-hot-update:old-generation-request-failed:failed-first-attempt-not-retried:status%d", o.Status), map[string]interface{}{"obs": o, "variant": variant, "old_generation": k - 1})
+				} else if o.Status != 200 {
 					r.Violation(fmt.Sprintf("pipeline-hot-update:old-generation-request-failed:status%d", o.Status), map[string]interface{}{"obs": o, "variant": variant})
 				}
 				r.Cover(fmt.Sprintf("seq/old-after-update/variant%d/status%d", variant, o.Status))
@@ -257,7 +325,7 @@ func TestVerif_C11_Pipelines(t *testing.T) {
 		// ---- concurrent
 		var started, done int64 = 3, 3
 		var stop int32
-		var served, overlapped int64
+		var served, overlapped, retrySaved int64
 		var wg sync.WaitGroup
 		for c := 0; c < 8; c++ {
 			wg.Add(1)
@@ -283,9 +351,14 @@ func TestVerif_C11_Pipelines(t *testing.T) {
 					if hi != lo {
 						atomic.AddInt64(&overlapped, 1)
 					}
+					if o.Attempts >= 2 && o.Status == 200 {
+						atomic.AddInt64(&retrySaved, 1)
+					}
 					bk, hk, ok := c11GenOf(o)
 					bad := ""
 					switch {
+					case o.Status != 200 && o.Attempts == 1:
+						bad = fmt.Sprintf("request-failed-during-update:failed-first-attempt-not-retried:status%d:result=%s", o.Status, o.Result)
 					case o.Status != 200:
 						bad = fmt.Sprintf("request-failed-during-update:status%d:result=%s", o.Status, o.Result)
 					case !ok:
@@ -359,12 +432,14 @@ func TestVerif_C11_Pipelines(t *testing.T) {
 		r.Eval(int(served))
 		r.Count("pipeline_requests", served)
 		r.Count("pipeline_requests_overlapping_an_update", overlapped)
+		r.Count("pipeline_requests_saved_by_retry_policy", retrySaved)
 		if i < 2 {
 			r.Sample(map[string]interface{}{"rig": "trafficcontroller", "variant": variant, "generations": gens, "requests": served, "overlapping": overlapped, "spec_gen_1": c11Pipeline("hot", 1, variant)})
 		}
 		tc.Close()
 	}
 	r.Require("pipeline_requests_overlapping_an_update", 1)
+	r.Require("pipeline_requests_saved_by_retry_policy", 1)
 	r.Require("old_generation_requests", 1)
 	r.Require("unchanged_reapply", 1)
 }
